@@ -244,9 +244,12 @@ O(id='INTEGER_encode_der.canon', props=['C02', 'C06', 'C07'], kind='bounded', en
   unwind=18, cbmc=IDC, bound='INTEGER buffers of 1..10 octets (up to 9 redundant leading octets)', min_props=50, timeout=600, **ID)
 O(id='NativeInteger_der', props=['C01', 'C02', 'C13'], kind='width', entry='h_NativeInteger_der',
   functions=['NativeInteger_encode_der', 'INTEGER_encode_der', 'NativeInteger_decode_ber'], proves=['NativeInteger_encode_der'],
-  unwind=18, cbmc=IDC + ['--partial-loops', '--unwindset', 'NativeInteger_encode_der.0:8'], expected_fail=[r'NativeInteger_encode_der\.unwind\.0'],
-  trusted=['NativeInteger_encode_der byte-split loop `for(p = buf + 7; p >= buf; p--)` ends by forming a pointer before the array (UB in ISO C, outside CBMC pointer model): modelled as exactly sizeof(long)=8 iterations (--partial-loops, unwindset 8)'],
+  unwind=18, cbmc=IDC,
   bound='all 2^64 long values', min_props=50, timeout=600, **ID)
+O(id='NativeInteger_der.unsigned', props=['C01', 'C02', 'C13'], kind='width', entry='h_NativeInteger_der_unsigned',
+  functions=['NativeInteger_encode_der', 'INTEGER_encode_der', 'NativeInteger_decode_ber'],
+  unwind=18, cbmc=IDC,
+  bound='all 2^64 unsigned long values (field_unsigned)', min_props=50, timeout=600, **ID)
 O(id='NativeInteger_decode_ber.b14', props=['C03', 'C04', 'C05'], kind='bounded', entry='h_NativeInteger_decode_ber', functions=['NativeInteger_decode_ber', 'ber_check_tags'],
   unwind=18, cbmc=IDC, bound='every input of at most 14 octets, signed and unsigned native fields', min_props=50, timeout=600, **ID)
 
@@ -364,6 +367,8 @@ IO = dict(harness='harness/h_integer_oer.c', units=[SK + 'INTEGER_oer.c', SK + '
 O(id='INTEGER_oer.roundtrip', props=['C01', 'C02', 'C06', 'C07', 'C13'], kind='width', entry='h_INTEGER_oer', functions=['INTEGER_encode_oer', 'INTEGER_decode_oer'],
   proves=['INTEGER_encode_oer'], unwind=14, cbmc=['--no-malloc-may-fail'],
   bound='every intmax_t value with 0..2 redundant leading octets, every layout {width 0,1,2,4,8} x {signed, non-negative}', min_props=50, timeout=900, **IO)
+O(id='NativeInteger_oer', props=['C01', 'C02', 'C13'], kind='width', entry='h_NativeInteger_oer', functions=['NativeInteger_encode_oer', 'NativeInteger_decode_oer', 'INTEGER_encode_oer'],
+  unwind=14, cbmc=['--no-malloc-may-fail'], bound='every 64-bit native value, signed and unsigned fields, every layout width 0,1,2,4,8', min_props=50, timeout=900, **IO)
 O(id='INTEGER_decode_oer.b12', props=['C04', 'C05', 'C14'], kind='bounded', entry='h_INTEGER_decode_oer', functions=['INTEGER_decode_oer'],
   unwind=14, cbmc=['--malloc-may-fail', '--malloc-fail-null', '--memory-leak-check'],
   bound='every input of at most 12 octets, width 0..8, both signs, fresh or re-used structure; every allocation may fail', min_props=50, timeout=900, **IO)
